@@ -72,11 +72,43 @@ def class_of_type(t):
     return m.group(1) if m else ''
 
 
+# Each (translation unit, AST filter, defines) is dumped by clang and parsed ONCE per run (the four passes below share the dumps; the
+# nodes are never modified), and `prefetch` runs the clang processes side by side (cold-start time of the check).
+_AST = {}
+def _ast_key(cfg, repo):
+    return (cfg['tu'], cfg['filter'], tuple(cfg.get('defines', [])), repo)
+def _ast(cfg, repo):
+    k = _ast_key(cfg, repo)
+    if k not in _AST:
+        _AST[k] = cxx2coq.load_objs(cxx2coq.dump_ast(cfg, repo))
+    elif isinstance(_AST[k], Exception):
+        raise _AST[k]
+    return _AST[k]
+def prefetch(repo):
+    import concurrent.futures as cf
+    here = os.path.dirname(os.path.abspath(__file__))
+    tu = os.path.join(here, 'inst.cpp'); tu_gen = os.path.join(here, 'inst_gen.cpp')
+    want = [(tu, cls, [define]) for cls, define in CLASSES] + [(tu, flt, [define]) for define, flt, _ in HANDLE_DUMPS] + \
+           [(tu, 'DataSelection', ['INST_DATATABLE']), (tu_gen, 'DataRawMultiHashIterator', []), (tu_gen, 'DataTable', [])]
+    cfgs = []
+    for tu_, flt, defs in want:
+        cfg = {'tu': tu_, 'filter': flt, 'class': flt, 'defines': defs, 'includes': [os.path.join(repo, 'include')]}
+        if _ast_key(cfg, repo) not in _AST and _ast_key(cfg, repo) not in [_ast_key(c, repo) for c in cfgs]:
+            cfgs.append(cfg)
+    def dump(cfg):
+        try: return cxx2coq.dump_ast(cfg, repo)
+        except Exception as e: return e
+    with cf.ThreadPoolExecutor(max_workers=4) as ex:
+        texts = list(ex.map(dump, cfgs))
+    for cfg, txt in zip(cfgs, texts):
+        _AST[_ast_key(cfg, repo)] = txt if isinstance(txt, Exception) else cxx2coq.load_objs(txt)
+
+
 def analyse(cls, define, repo, prev):
     """prev: {(class, name): (all_tags:set, any_tags:set)} of already analysed classes (for nested containers)"""
     cfg = {'tu': os.path.join(os.path.dirname(os.path.abspath(__file__)), 'inst.cpp'), 'filter': cls, 'class': cls,
            'defines': [define], 'includes': [os.path.join(repo, 'include')]}
-    objs = cxx2coq.load_objs(cxx2coq.dump_ast(cfg, repo))
+    objs = _ast(cfg, repo)
     spec = cxx2coq.find_spec(objs, cfg)
     # member function bodies by decl id
     body = {}          # id -> node
@@ -460,7 +492,7 @@ def leaks(repo, classes=None):
             continue
         cfg = {'tu': os.path.join(os.path.dirname(os.path.abspath(__file__)), 'inst.cpp'), 'filter': cls, 'class': cls,
                'defines': [define], 'includes': [os.path.join(repo, 'include')]}
-        spec = cxx2coq.find_spec(cxx2coq.load_objs(cxx2coq.dump_ast(cfg, repo)), cfg)
+        spec = cxx2coq.find_spec(_ast(cfg, repo), cfg)
         body = {}; pub = []; acc = 'private'; names = {}
         for m in spec.get('inner', []):
             if m.get('kind') == 'AccessSpecDecl':
@@ -525,7 +557,7 @@ def noexcept_checked_paths(repo):
     tu = os.path.join(os.path.dirname(os.path.abspath(__file__)), 'inst.cpp')
     for define, flt, names in HANDLE_DUMPS:
         cfg = {'tu': tu, 'filter': flt, 'class': flt, 'defines': [define], 'includes': [os.path.join(repo, 'include')]}
-        for spec in _specs(cxx2coq.load_objs(cxx2coq.dump_ast(cfg, repo)), names):
+        for spec in _specs(_ast(cfg, repo), names):
             body = {}
             for m in spec.get('inner', []):
                 if m.get('kind') in ('CXXMethodDecl', 'FunctionTemplateDecl', 'CXXConstructorDecl'):
@@ -572,13 +604,22 @@ def stale_check_sites(repo):
     tu = os.path.join(os.path.dirname(os.path.abspath(__file__)), 'inst.cpp')
     def has_member(b, name):
         return any(n.get('kind') == 'MemberExpr' and n.get('name') == name for n in walk(b))
-    for flt, names, sites in (('DataSelection', ('DataSelection',), {'pvSort': 'Check|pvMakeConstRowReference', 'pvGroup': 'Check', 'pvBinarySearch': 'Check', 'Add': 'GetRaw'}),
-                              ('DataTable', ('DataTable',), {'pvAssign': 'GetRaw', 'pvRemove': 'GetRaw|pvMakeConstRowReference'})):
-        cfg = {'tu': tu, 'filter': flt, 'class': flt, 'defines': ['INST_DATATABLE'], 'includes': [os.path.join(repo, 'include')]}
-        for spec in _specs(cxx2coq.load_objs(cxx2coq.dump_ast(cfg, repo)), names):
+    tu_gen = os.path.join(os.path.dirname(os.path.abspath(__file__)), 'inst_gen.cpp')
+    for tu_, defs, flt, names, sites in (
+            (tu, ['INST_DATATABLE'], 'DataSelection', ('DataSelection',), {'pvSort': 'Check|pvMakeConstRowReference', 'pvGroup': 'Check', 'pvBinarySearch': 'Check', 'Add': 'GetRaw'}),
+            (tu, ['INST_DATATABLE'], 'DataTable', ('DataTable',), {'pvAssign': 'GetRaw', 'pvRemove': 'GetRaw|pvMakeConstRowReference'}),
+            # grow round 4: the raw iterators of FindByMultiHash bounds check their changeVersion keeper before moving / dereferencing
+            (tu_gen, [], 'DataRawMultiHashIterator', ('DataRawMultiHashIterator',), {'operator+=': 'Check', 'operator->': 'Check'}),
+            # ... and the raw bounds handed out by FindByMultiHash / FindByUniqueHash get a keeper on changeVersion
+            (tu_gen, [], 'DataTable', ('DataTable',), {'pvFindByHash': 'GetChangeVersion@FindRaws'})):
+        cfg = {'tu': tu_, 'filter': flt, 'class': flt, 'defines': defs, 'includes': [os.path.join(repo, 'include')]}
+        for spec in _specs(_ast(cfg, repo), names):
             for m in spec.get('inner', []):
                 if m.get('kind') in ('CXXMethodDecl', 'FunctionTemplateDecl') and m.get('name') in sites:
+                    want, _, only = sites[m['name']].partition('@')       # 'A|B@C': bodies containing a call of C must contain A or B
                     for b in bodies(m):
-                        ok = any(has_member(b, alt) for alt in sites[m['name']].split('|'))
+                        if only and not has_member(b, only):
+                            continue
+                        ok = any(has_member(b, alt) for alt in want.split('|'))
                         rows.append((spec.get('name'), '%s(%s)' % (m['name'], re.sub(r'\(lambda at [^)]*\)', 'lambda', params_of(b, flt)[0])[:120]), ok))
     return sorted(set(rows))
